@@ -139,6 +139,30 @@ theorem updateAggregates_cells {O : Oracles} {q : AggStmt} {env : Env} {key : Li
         · exact h (by simp [hi])
       simp [this]
 
+theorem updateAggregates_shape {O : Oracles} {q : AggStmt} {env : Env} {key : List Value}
+    (slots : List (Nat × AggKind)) {st st' : AggState} {S : List (List Value)} (hsh : Shape st S) (hk : key ∈ S)
+    (h : updateAggregates O q env key slots st = .ok st') : Shape st' S := by
+  induction slots generalizing st with
+  | nil => simp only [updateAggregates, Outcome.ok.injEq] at h; subst h; exact hsh
+  | cons s rest ih =>
+    obtain ⟨i, k⟩ := s
+    simp only [updateAggregates] at h
+    obtain ⟨st1, h1, h2⟩ := bind_ok h
+    exact ih (updateAggregate_shape hsh hk h1) h2
+
+theorem updateAggregates_append {O : Oracles} {q : AggStmt} {env : Env} {key : List Value}
+    (a b : List (Nat × AggKind)) {s s1 s2 : AggState}
+    (ha : updateAggregates O q env key a s = .ok s1) (hb : updateAggregates O q env key b s1 = .ok s2) :
+    updateAggregates O q env key (a ++ b) s = .ok s2 := by
+  induction a generalizing s with
+  | nil => simp [updateAggregates] at ha; subst ha; simpa using hb
+  | cons x xs ihx =>
+    obtain ⟨i, k⟩ := x
+    simp only [updateAggregates, List.cons_append] at ha ⊢
+    obtain ⟨sm, hm1, hm2⟩ := bind_ok ha
+    rw [hm1]
+    exact ihx hm2
+
 theorem havingUpdates_eq {O : Oracles} {q : AggStmt} {env : Env} {key : List Value} (visit : List HavingRef) (j : Nat)
     {st st' : AggState} (h : havingUpdates O q env key visit j st = .ok st') :
     updateAggregates O q env key (visitSlots visit (q.items.length + j)) st = .ok st' := by
@@ -157,14 +181,11 @@ theorem havingUpdates_eq {O : Oracles} {q : AggStmt} {env : Env} {key : List Val
       rw [h1]
       exact ih (j + 1) h2
 
-/-- what `execute_update` does for one row: nothing if WHERE rejects it; otherwise every slot of the row's own
-group takes one `cellStep` with this row, and every other cell is untouched -/
-theorem aggUpdateRow_cells {O : Oracles} {q : AggStmt} {env : Env} {st st' : AggState} {u : Bool} (hs : AggSorted st)
+/-- `execute_update` for one row: WHERE, then the key, then one pass of `update_aggregate` over `rowSlots q` -/
+theorem aggUpdateRow_eq {O : Oracles} {q : AggStmt} {env : Env} {st st' : AggState} {u : Bool}
     (h : aggUpdateRow O q st env = .ok (st', u)) :
-    AggSorted st' ∧ Spec.Agg.passes O q env = some u ∧ (u = false → st' = st) ∧
-    (u = true → ∃ key, Spec.Agg.keyOf O q env = some key ∧
-      (∀ i kind, (i, kind) ∈ rowSlots q → cellStep O q env kind (readCell st key i) = .ok (readCell st' key i)) ∧
-      (∀ k' i', (cmpList key k' ≠ .eq ∨ i' ∉ (rowSlots q).map (·.1)) → readCell st' k' i' = readCell st k' i')) := by
+    Spec.Agg.passes O q env = some u ∧ (u = false → st' = st) ∧
+    (u = true → ∃ key, Spec.Agg.keyOf O q env = some key ∧ updateAggregates O q env key (rowSlots q) st = .ok st') := by
   unfold aggUpdateRow at h
   obtain ⟨valid, hv, h⟩ := bind_ok h
   have hpass : Spec.Agg.passes O q env = some valid := by
@@ -181,7 +202,7 @@ theorem aggUpdateRow_cells {O : Oracles} {q : AggStmt} {env : Env} {st st' : Agg
     simp [pure] at h
     obtain ⟨h1, h2⟩ := h
     subst h1; subst h2
-    exact ⟨hs, hpass, fun _ => rfl, fun hh => by simp at hh⟩
+    exact ⟨hpass, fun _ => rfl, fun hh => by simp at hh⟩
   | true =>
     simp only [Bool.not_true, Bool.false_eq_true, if_false] at h
     obtain ⟨key, hkey, h⟩ := bind_ok h
@@ -195,31 +216,35 @@ theorem aggUpdateRow_cells {O : Oracles} {q : AggStmt} {env : Env} {st st' : Agg
       cases hg : q.groupBy with
       | none => simp [hg, pure] at hkey; simp [hkey]
       | some parts => simp only [hg] at hkey; simp [hkey, Spec.Agg.okOf]
-    -- both update passes as one pass over `rowSlots q`
-    have hall : updateAggregates O q env key (rowSlots q) st = .ok st2 := by
-      have happ : ∀ (a b : List (Nat × AggKind)) (s s1 s2 : AggState),
-          updateAggregates O q env key a s = .ok s1 → updateAggregates O q env key b s1 = .ok s2 →
-          updateAggregates O q env key (a ++ b) s = .ok s2 := by
-        intro a
-        induction a with
-        | nil => intro b s s1 s2 ha hb; simp [updateAggregates] at ha; subst ha; simpa using hb
-        | cons x xs ihx =>
-          intro b s s1 s2 ha hb
-          obtain ⟨i, k⟩ := x
-          simp only [updateAggregates, List.cons_append] at ha ⊢
-          obtain ⟨sm, hm1, hm2⟩ := bind_ok ha
-          rw [hm1]
-          exact ihx b sm s1 s2 hm2 hb
-      unfold rowSlots
-      apply happ _ _ st st1 st2 h1
-      cases hh : q.having with
-      | none => simp [hh, pure] at h2; subst h2; simp [updateAggregates]
-      | some hx =>
-        simp only [hh] at h2
-        have := havingUpdates_eq q.havingVisit 0 h2
-        simpa using this
+    refine ⟨hpass, fun hh => by simp at hh, fun _ => ⟨key, hkeyOf, ?_⟩⟩
+    unfold rowSlots
+    apply updateAggregates_append _ _ h1
+    cases hh : q.having with
+    | none => simp [hh, pure] at h2; subst h2; simp [updateAggregates]
+    | some hx =>
+      simp only [hh] at h2
+      have := havingUpdates_eq q.havingVisit 0 h2
+      simpa using this
+
+/-- what `execute_update` does for one row: nothing if WHERE rejects it; otherwise every slot of the row's own
+group takes one `cellStep` with this row, and every other cell is untouched -/
+theorem aggUpdateRow_cells {O : Oracles} {q : AggStmt} {env : Env} {st st' : AggState} {u : Bool} (hs : AggSorted st)
+    (h : aggUpdateRow O q st env = .ok (st', u)) :
+    AggSorted st' ∧ Spec.Agg.passes O q env = some u ∧ (u = false → st' = st) ∧
+    (u = true → ∃ key, Spec.Agg.keyOf O q env = some key ∧
+      (∀ i kind, (i, kind) ∈ rowSlots q → cellStep O q env kind (readCell st key i) = .ok (readCell st' key i)) ∧
+      (∀ k' i', (cmpList key k' ≠ .eq ∨ i' ∉ (rowSlots q).map (·.1)) → readCell st' k' i' = readCell st k' i') ∧
+      (∀ S, Shape st S → key ∈ S → Shape st' S)) := by
+  obtain ⟨hpass, hfalse, htrue⟩ := aggUpdateRow_eq h
+  cases u with
+  | false =>
+    rw [hfalse rfl]
+    exact ⟨hs, hpass, fun _ => rfl, fun hh => by simp at hh⟩
+  | true =>
+    obtain ⟨key, hkeyOf, hall⟩ := htrue rfl
     obtain ⟨hs2, hin, hout⟩ := updateAggregates_cells (rowSlots q) (rowSlots_nodup q) hs hall
-    exact ⟨hs2, hpass, fun hh => by simp at hh, fun _ => ⟨key, hkeyOf, hin, hout⟩⟩
+    exact ⟨hs2, hpass, fun hh => by simp at hh, fun _ => ⟨key, hkeyOf, hin, hout,
+      fun S hsh hk => updateAggregates_shape (rowSlots q) hsh hk hall⟩⟩
 
 /-! ### the whole input -/
 
@@ -248,9 +273,10 @@ structure Coupled (O : Oracles) (q : AggStmt) (st : AggState) (rows : List (List
   cells : ∀ key i kind, (i, kind) ∈ rowSlots q →
     cellFold O q kind (Spec.Agg.rowsOfKey key rows) {} = .ok (readCell st key i)
   others : ∀ key i, i ∉ (rowSlots q).map (·.1) → readCell st key i = {}
+  shape : Shape st (rows.map (·.1))
 
 theorem coupled_init (O : Oracles) (q : AggStmt) : Coupled O q {} [] :=
-  ⟨aggSorted_init, fun _ _ _ _ => rfl, fun _ _ _ => rfl⟩
+  ⟨aggSorted_init, fun _ _ _ _ => rfl, fun _ _ _ => rfl, shape_init _⟩
 
 theorem rowsOfKey_append (key : List Value) (rows more : List (List Value × Env)) :
     Spec.Agg.rowsOfKey key (rows ++ more) = Spec.Agg.rowsOfKey key rows ++ Spec.Agg.rowsOfKey key more := by
@@ -266,8 +292,8 @@ theorem coupled_step {O : Oracles} {q : AggStmt} {st st' : AggState} {rows : Lis
   refine ⟨hpass, ?_, ?_⟩
   · intro hu; rw [hfalse hu]; exact hc
   · intro hu
-    obtain ⟨key, hkey, hin, hout⟩ := htrue hu
-    refine ⟨key, hkey, hs', ?_, ?_⟩
+    obtain ⟨key, hkey, hin, hout, hshape⟩ := htrue hu
+    refine ⟨key, hkey, hs', ?_, ?_, ?_⟩
     · intro k' i kind hmem
       rw [rowsOfKey_append, cellFold_append, hc.cells k' i kind hmem]
       simp only [Outcome.bind]
@@ -285,6 +311,9 @@ theorem coupled_step {O : Oracles} {q : AggStmt} {st st' : AggState} {rows : Lis
     · intro k' i hi
       rw [hout k' i (Or.inr hi)]
       exact hc.others k' i hi
+    · apply hshape
+      · exact shape_mono hc.shape (fun k hk => by simp [hk])
+      · simp
 
 /-- **the update half of the refinement**: whatever rows were fed, the state is coupled to the rows that passed
 WHERE, each with its key, in arrival order -/
